@@ -201,6 +201,7 @@ structure St where
   model : State := init
   orth : Bool := false
   pen : Rat := 0
+  buf : Rat := 0                           -- shapeBufferDistance
   obsO : List Obst := []
   obsC : List Conn := []
   txn : Txn := {}
@@ -227,6 +228,7 @@ def rank : Verdict → Nat
   | .diverge _ => 1
   | .specfail m =>
     if m.startsWith "invalid-route through-two-corners" || m.startsWith "stale-route not-rerouted-fewer-bends"
+        || m.startsWith "invalid-route through-buffer-owner"
     then 2 else 3
 
 def St.setFail (s : St) (v : Verdict) : St :=
@@ -237,7 +239,17 @@ def St.setFail (s : St) (v : Verdict) : St :=
 def lookup {β} (l : List (Nat × β)) (k : Nat) : Option β := (l.find? (·.1 == k)).map (·.2)
 
 /-- vertex of a dumped edge must belong to a live object of the model scene, at its current position -/
-def vertexOk (sc : Scene) (orth : Bool) (o vn : Nat) (isConn : Bool) (p : Pt) : Bool :=
+def near (a b : Rat) : Bool := absR (a - b) ≤ tol
+
+/-- `Polygon::offsetPolygon(buf)` of a rectangle: every corner moves outwards by `buf` in x and in y -/
+def offsetCorner (rc : Rect) (buf : Rat) (g : Pt) : Pt :=
+  ⟨if g.x * 2 > rc.x0 + rc.x1 then g.x + buf else g.x - buf, if g.y * 2 > rc.y0 + rc.y1 then g.y + buf else g.y - buf⟩
+
+/-- does the routing polygon (shape grown by the buffer distance) of the rectangle strictly contain p? -/
+def inBufferZone (rc : Rect) (buf : Rat) (p : Pt) : Bool :=
+  rc.x0 - buf < p.x && p.x < rc.x1 + buf && rc.y0 - buf < p.y && p.y < rc.y1 + buf
+
+def vertexOk (sc : Scene) (orth : Bool) (buf : Rat) (o vn : Nat) (isConn : Bool) (p : Pt) : Bool :=
   if orth then true else
   if isConn then
     match findConn sc o with
@@ -252,14 +264,26 @@ def vertexOk (sc : Scene) (orth : Bool) (o vn : Nat) (isConn : Bool) (p : Pt) : 
       ob.active &&
         (if ob.isJ then
           match ob.geom with
-          | [c] => (p.x == c.x + 1 || p.x == c.x - 1) && (p.y == c.y + 1 || p.y == c.y - 1)
+          | [c] => (near p.x (c.x + 1 + buf) || near p.x (c.x - 1 - buf)) && (near p.y (c.y + 1 + buf) || near p.y (c.y - 1 - buf))
           | _ => false
-         else ob.geom[vn]? == some p)
+         else match ob.geom[vn]?, rectOfPoly ob.geom with
+           | some g, some rc => let q := offsetCorner rc buf g; near q.x p.x && near q.y p.y
+           | _, _ => false)
     | none => false
 
-/-- classification of an invalid route (fingerprint for findings): does some offending leg run
-    exactly through two corners of the shape it crosses (the diagonal, or along collinear corners)? -/
-def invalidKind (sc : Scene) (r : Pts) : String := Id.run do
+/-- Classification of an invalid route (fingerprint for findings). Every (leg, shape) pair in which
+    the leg crosses the shape's interior is put in one of three classes, and the most serious class
+    present is reported:
+    * `through-interior`: nothing excuses it;
+    * `through-two-corners`: the leg runs exactly through two corners of the shape (its diagonal);
+    * `through-buffer-owner`: shapeBufferDistance > 0 and the shape's ROUTING polygon (shape grown by the
+      buffer) contains an endpoint of this connector, although the shape itself does not: libavoid
+      exempts such a shape as a blocker for that endpoint (Router::contains), so the route may cut
+      through the shape itself. -/
+def invalidKind (sc : Scene) (buf : Rat) (src dst : Pt) (r : Pts) : String := Id.run do
+  let mut interior : Option Nat := none
+  let mut corners2 : Option Nat := none
+  let mut owner : Option Nat := none
   for i in [1:r.size] do
     let a := r[i - 1]!; let b := r[i]!
     for o in sc.obsts do
@@ -270,9 +294,14 @@ def invalidKind (sc : Scene) (r : Pts) : String := Id.run do
         if segHitsOpenRect (rc.shrink tol) (toP a) (toP b) then
           let corners : List Pt := [⟨rc.x0, rc.y0⟩, ⟨rc.x1, rc.y0⟩, ⟨rc.x1, rc.y1⟩, ⟨rc.x0, rc.y1⟩]
           let on := corners.filter fun c => cross a b c == 0 && dot a c b ≥ 0
-          if on.length ≥ 2 then return s!"through-two-corners shape={o.id}"
-          else return s!"through-interior shape={o.id}"
-  return "endpoints"
+          if buf > 0 && (inBufferZone rc buf src || inBufferZone rc buf dst) then owner := some o.id
+          else if on.length ≥ 2 then corners2 := some o.id
+          else interior := some o.id
+  match interior, corners2, owner with
+  | some id, _, _ => return s!"through-interior shape={id}"
+  | _, some id, _ => return s!"through-two-corners shape={id}"
+  | _, _, some id => return s!"through-buffer-owner shape={id}"
+  | _, _, _ => return "endpoints"
 
 /-- does the segment a–b run exactly through two corners of the rectangle (its diagonal)? -/
 def throughTwoCorners (rc : Rect) (a b : Pt) : Bool :=
@@ -299,7 +328,7 @@ def checkTxn (s : St) : St := Id.run do
         s := s.bump "routes.validated"
         if !routeValidRect rects (toP a) (toP b) (r.toList.map toP) then
           invalid := cid :: invalid
-          s := s.setFail (.specfail s!"invalid-route {invalidKind sc r} {kind} conn={cid} txn-after-op={s.lastOp}: {showPts r} not a valid route from ({showR a.x},{showR a.y}) to ({showR b.x},{showR b.y}) for the model scene")
+          s := s.setFail (.specfail s!"invalid-route {invalidKind sc s.buf a b r} {kind} conn={cid} txn-after-op={s.lastOp}: {showPts r} not a valid route from ({showR a.x},{showR a.y}) to ({showR b.x},{showR b.y}) for the model scene")
       | _ => s := s.setFail (.diverge s!"route printed for connector {cid} whose ends are not both set in the model")
       -- junction obstacle boxes: the property text speaks of shapes, so a route through a junction box is
       -- not judged (only counted) - except for the through-two-corners class (same defect as for shapes),
@@ -373,8 +402,15 @@ def checkTxn (s : St) : St := Id.run do
     let jrs := junctionRects sc
     for e in t.ve do
       s := s.bump "graph.vis-edges"
-      if !(vertexOk sc s.orth e.o1 e.vn1 e.c1 e.p1 && vertexOk sc s.orth e.o2 e.vn2 e.c2 e.p2) then
+      if !(vertexOk sc s.orth s.buf e.o1 e.vn1 e.c1 e.p1 && vertexOk sc s.orth s.buf e.o2 e.vn2 e.c2 e.p2) then
         s := s.setFail (.diverge s!"stale-graph dangling-vertex: visibility edge ({e.o1},{e.vn1})-({e.o2},{e.vn2}) refers to a deleted object or an outdated position")
+      else if decide (s.buf > (0 : Rat)) && rects.any (fun r => segHitsOpenRect r (toP e.p1) (toP e.p2) &&
+          ((e.c1 && inBufferZone (r.shrink (-tol)) s.buf e.p1) || (e.c2 && inBufferZone (r.shrink (-tol)) s.buf e.p2))) &&
+          !(rects.any fun r => segHitsOpenRect r (toP e.p1) (toP e.p2) &&
+            !((e.c1 && inBufferZone (r.shrink (-tol)) s.buf e.p1) || (e.c2 && inBufferZone (r.shrink (-tol)) s.buf e.p2))) then
+        -- the only shapes the edge crosses own a buffer zone around one of its connector ends: libavoid's
+        -- `contains` exemption (see invalidKind); counted, judged only when a route uses it
+        s := s.bump "graph.edge-through-buffer-owner"
       else if rects.any (fun r => segHitsOpenRect r (toP e.p1) (toP e.p2)) then
         let diag := rects.any fun r => segHitsOpenRect r (toP e.p1) (toP e.p2) && throughTwoCorners (r.shrink (-tol)) e.p1 e.p2
         let cls := if diag then "stale-graph through-two-corners" else "stale-graph blocked-edge"
@@ -385,7 +421,7 @@ def checkTxn (s : St) : St := Id.run do
         s := s.setFail (.diverge s!"{cls}: visibility edge ({e.o1},{e.vn1})-({e.o2},{e.vn2}) ({showR e.p1.x},{showR e.p1.y})-({showR e.p2.x},{showR e.p2.y}) passes through a junction box of the current scene")
     for e in t.ie do
       s := s.bump "graph.invis-edges"
-      if !(vertexOk sc s.orth e.o1 e.vn1 e.c1 e.p1 && vertexOk sc s.orth e.o2 e.vn2 e.c2 e.p2) then
+      if !(vertexOk sc s.orth s.buf e.o1 e.vn1 e.c1 e.p1 && vertexOk sc s.orth s.buf e.o2 e.vn2 e.c2 e.p2) then
         s := s.setFail (.diverge s!"stale-graph dangling-vertex: invisibility edge ({e.o1},{e.vn1})-({e.o2},{e.vn2}) refers to a deleted object or an outdated position")
       else if e.blocker > 0 then
         match findObst sc e.blocker.toNat with
@@ -394,7 +430,7 @@ def checkTxn (s : St) : St := Id.run do
           let box := if ob.isJ then junctionBox ob.geom else rectOfPoly ob.geom
           match box with
           | some r =>
-            if !ob.active || !segHitsOpenRect (r.shrink (-tol)) (toP e.p1) (toP e.p2) then
+            if !ob.active || !segHitsOpenRect (r.shrink (-(tol + s.buf))) (toP e.p1) (toP e.p2) then
               s := s.setFail (.diverge s!"stale-graph stale-blocker: invisibility edge ({e.o1},{e.vn1})-({e.o2},{e.vn2}) names blocker {e.blocker} which does not touch it in the current scene")
           | none => pure ()
         | none => s := s.setFail (.diverge s!"stale-graph stale-blocker: invisibility edge ({e.o1},{e.vn1})-({e.o2},{e.vn2}) names deleted blocker {e.blocker}")
@@ -408,7 +444,7 @@ def stepLine (s : St) (l : Array String) : St :=
   let rest := l.extract 1 l.size
   match key with
   | "cfg" =>
-    { s with orth := rest[0]?.getD "" == "orth", pen := (num? (rest[1]?.getD "0")).getD 0,
+    { s with orth := rest[0]?.getD "" == "orth", pen := (num? (rest[1]?.getD "0")).getD 0, buf := (num? (rest[3]?.getD "0")).getD 0,
              model := { init with useTxn := true } }
   | "op" =>
     match parseOp rest with
